@@ -363,6 +363,57 @@ var overwriteCmds = []string{"set", "mset", "setex", "psetex", "getset", "rename
 // condKeyword: does the branch condition depend on a flag that is set under a comparison with the given option keyword?
 func condKeyword(cond ssa.Value, kw string) bool {
 	found := false
+	// a flag kept in a struct field (options parsed by a helper): some store of true into that field sits under the keyword test
+	fieldOf := func(v ssa.Value) (string, string) {
+		switch x := v.(type) {
+		case *ssa.UnOp:
+			if fa, ok := x.X.(*ssa.FieldAddr); ok {
+				return namedOf(fa.X.Type()), fieldName(fa)
+			}
+		case *ssa.Field:
+			if st, ok := x.X.Type().Underlying().(*types.Struct); ok {
+				return namedOf(x.X.Type()), st.Field(x.Field).Name()
+			}
+		}
+		return "", ""
+	}
+	if tn, fnm := fieldOf(cond); fnm != "" && cond.Parent() != nil && cond.Parent().Pkg != nil {
+		for _, m := range cond.Parent().Pkg.Members {
+			fn, ok := m.(*ssa.Function)
+			if !ok {
+				continue
+			}
+			for _, b := range fn.Blocks {
+				for _, in := range b.Instrs {
+					st, ok := in.(*ssa.Store)
+					if !ok {
+						continue
+					}
+					fa, ok := st.Addr.(*ssa.FieldAddr)
+					if !ok || fieldName(fa) != fnm || namedOf(fa.X.Type()) != tn {
+						continue
+					}
+					cst, ok := st.Val.(*ssa.Const)
+					if !ok || cst.Value == nil || cst.Value.Kind() != constant.Bool || !constant.BoolVal(cst.Value) {
+						continue
+					}
+					for d := b; d != nil; d = d.Idom() {
+						if id := d.Idom(); id != nil && len(id.Instrs) > 0 {
+							if iff, ok := id.Instrs[len(id.Instrs)-1].(*ssa.If); ok {
+								if bo, ok := iff.Cond.(*ssa.BinOp); ok && bo.Op == token.EQL {
+									for _, side := range []ssa.Value{bo.X, bo.Y} {
+										if s, ok := constString(side); ok && strings.EqualFold(s, kw) && id.Succs[0] == d {
+											return true
+										}
+									}
+								}
+							}
+						}
+					}
+				}
+			}
+		}
+	}
 	backslice(cond, func(v ssa.Value) bool {
 		if found {
 			return false
